@@ -210,30 +210,31 @@ first pass chose it) — makes the age of the first terminal report a rank that 
 task lies on no cycle.  A started task has all its `edgesAt`-successors reported (C01, `start_after_depsAt`); at a
 normal end every selected task is reported (C02, `all_processed_*`).
 
-Scope: `[NoFailDeliver inp]` — the closure graph `edgesAt` of the monitor counts what *executed / up-to-date* calc_deps
-delivered; the values a calc task returned before its execution FAILED are delivered by doit as well (M1 `deliverF`,
-round 4) and are not part of `edgesAt` yet, so these theorems are stated for inputs without such values
-(`calcResFail` empty).  `Acyclic` / `FiniteTable` and the theorems above (no false cycle, no deadlock, termination) do
-cover them. -/
+Scope: every input, also those whose calc tasks return dependency values before their execution FAILS (`calcResFail`,
+which doit delivers as well: M1 `deliverF`).  The closure graph `edgesAt` of these statements counts what *executed /
+up-to-date* calc_deps delivered; what a failed calc_dep delivered is additional: the node invariant `NG` bounds the
+lists of an `ExecNode` by `StageF` / `CalcF` (Proofs/C09Ord.lean), and everything those add hangs below a failed member
+of the determined dependencies (`StageF.cases`) — so it can neither put a task into the setup stage nor reorder the
+terminal reports along `edgesAt`. -/
 
 /-- C09 (cycle diagnosed), serial runner, FULL: (1) a run that ends normally — `run_tasks` returned, no exception, not
     stopped by a failure — has no cycle in the closure graph of its selection; (2) in every reachable state (every
     prefix of every run) no task on a cycle of the closure graph has been started -/
-theorem C09_cycle_diagnosed_serial (inp : RunInput) [NoFailDeliver inp] (s : Sys) (hr : Reach inp s) (nTasks : Nat)
+theorem C09_cycle_diagnosed_serial (inp : RunInput) (s : Sys) (hr : Reach inp s) (nTasks : Nat)
     (hb : BoundedCalc inp nTasks) :
     (s.rpc = .halted → s.halt = .none → s.stop = false → cycleTasks inp nTasks (trace inp s) = []) ∧
     (∀ t ∈ cycleTasks inp nTasks (trace inp s), s.events.countP (Ev.isStartOf t) = 0) :=
   cycle_diagnosed_serial hr nTasks (calcsSat_of_bounded hb _)
 
 /-- the same for the parallel runners: every worker interleaving, every `numProcess` -/
-theorem C09_cycle_diagnosed_parallel (inp : RunInput) [NoFailDeliver inp] (s : Sys) (hr : PReach inp s) (nTasks : Nat)
+theorem C09_cycle_diagnosed_parallel (inp : RunInput) (s : Sys) (hr : PReach inp s) (nTasks : Nat)
     (hb : BoundedCalc inp nTasks) :
     (s.rpc = .halted → s.halt = .none → s.stop = false → cycleTasks inp nTasks (trace inp s) = []) ∧
     (∀ t ∈ cycleTasks inp nTasks (trace inp s), s.events.countP (Ev.isStartOf t) = 0) :=
   cycle_diagnosed_parallel hr nTasks (calcsSat_of_bounded hb _)
 
 /-- C09 (cycle diagnosed), all three runners: the statement that was `def C09_cycle_diagnosed_full`, now a theorem -/
-theorem C09_cycle_diagnosed (inp : RunInput) [NoFailDeliver inp] (s : Sys) (hr : Reach inp s ∨ PReach inp s) (nTasks : Nat)
+theorem C09_cycle_diagnosed (inp : RunInput) (s : Sys) (hr : Reach inp s ∨ PReach inp s) (nTasks : Nat)
     (hb : BoundedCalc inp nTasks) :
     (s.rpc = .halted → s.halt = .none → s.stop = false → cycleTasks inp nTasks (trace inp s) = []) ∧
     (∀ t ∈ cycleTasks inp nTasks (trace inp s), s.events.countP (Ev.isStartOf t) = 0) := by
@@ -244,7 +245,7 @@ theorem C09_cycle_diagnosed (inp : RunInput) [NoFailDeliver inp] (s : Sys) (hr :
 /-- consequently: if the closure of the selection has a cycle and the run was not cut short by a failure, then — unless
     doit died of an internal error (`halt = crash`: an `assert` of the dispatcher / of `MRunner`; excluded for the
     `"hold on"` paths by `C09_no_deadlock_*`) — the run ended with the cyclic-dependency error and exit code 3 -/
-theorem C09_cycle_exit3 (inp : RunInput) [NoFailDeliver inp] (s : Sys) (hr : Reach inp s ∨ PReach inp s) (nTasks : Nat)
+theorem C09_cycle_exit3 (inp : RunInput) (s : Sys) (hr : Reach inp s ∨ PReach inp s) (nTasks : Nat)
     (hb : BoundedCalc inp nTasks) (hcyc : cycleTasks inp nTasks (trace inp s) ≠ []) (hend : s.rpc = .halted)
     (hstop : s.stop = false) (hnc : s.halt ≠ .crash) : s.halt = .cyclic ∧ exitCode s = 3 := by
   have h := (C09_cycle_diagnosed inp s hr nTasks hb).1 hend
@@ -255,7 +256,7 @@ theorem C09_cycle_exit3 (inp : RunInput) [NoFailDeliver inp] (s : Sys) (hr : Rea
 
 /-- stronger than "never started": a task on a cycle of the closure graph is never reported at all — not executed, not
     skipped as up-to-date or ignored, not reported failed/unmet (a terminal report would rank it below itself) -/
-theorem C09_cycle_task_never_reported (inp : RunInput) [NoFailDeliver inp] (s : Sys) (hr : Reach inp s ∨ PReach inp s) (nTasks : Nat)
+theorem C09_cycle_task_never_reported (inp : RunInput) (s : Sys) (hr : Reach inp s ∨ PReach inp s) (nTasks : Nat)
     (hb : BoundedCalc inp nTasks) (t : Name) (hc : onCycle inp nTasks (trace inp s) t = true) :
     s.events.countP (Ev.isTerminalOf t) = 0 := by
   have hT : InvT inp s := by
@@ -275,7 +276,7 @@ theorem C09_cycle_task_never_reported (inp : RunInput) [NoFailDeliver inp] (s : 
 
 /-- the order invariant behind it, all three runners, every graph: in every reachable state, every edge `t → d` of the
     closure graph out of a task that has a terminal report leads to a task whose terminal report is older -/
-theorem C09_report_after_dependencies (inp : RunInput) [NoFailDeliver inp] (s : Sys) (hr : Reach inp s ∨ PReach inp s) (nTasks : Nat)
+theorem C09_report_after_dependencies (inp : RunInput) (s : Sys) (hr : Reach inp s ∨ PReach inp s) (nTasks : Nat)
     (hb : BoundedCalc inp nTasks) (t : Name) (a : Nat) (ha : fstTerm s.events t = some a) :
     ∀ d ∈ edgesAt inp nTasks (trace inp s) t, ∃ b, fstTerm s.events d = some b ∧ b < a := by
   have hT : InvT inp s := by
@@ -429,5 +430,21 @@ example : ∃ s, PReach { exAcyclic with runner := .thread, numProc := 3 } s ∧
 example : ∃ s, PReach { exAcyclic with runner := .thread, numProc := 3 } s ∧ s.susp = some .holdOn ∧
     s.dispatched ≠ [] :=
   ⟨_, autoRun_preach (by decide) false true 40 _ PReach.init, by decide +kernel, by decide +kernel⟩
+
+
+/-- an input on which a FAILED calc task delivers: `2` has calc_dep `0`; `0` is executed, returns `task_dep: [1]` and then
+    fails (`calcResFail`); `--continue` -/
+def exFailDeliver : RunInput :=
+  { taskDep := fun _ => [], calcDep := fun n => if n = 2 then [0] else [], setup := fun _ => [], sel := [2],
+    continue_ := true, outcome := fun n => if n = 0 then .failed else .ok,
+    calcResFail := fun n => if n = 0 then { tasks := [1] } else {} }
+
+/-- the theorems of this section are not vacuous on such inputs: the run ends, the delivered task `1` is created,
+    executed and reported, `2` is reported (unmet) — and the order statement applies to all three -/
+example : ∃ s, Reach exFailDeliver s ∧ s.rpc = .halted ∧ s.events.countP (Ev.isTerminalOf 1) = 1 ∧
+    s.events.countP (Ev.isStartOf 1) = 1 ∧ s.events.countP (Ev.isTerminalOf 2) = 1 ∧
+    s.events.countP (Ev.isStartOf 2) = 0 :=
+  ⟨_, autoRun_reach (by decide) false false 400 _ Reach.init, by decide +kernel, by decide +kernel, by decide +kernel,
+    by decide +kernel, by decide +kernel⟩
 
 end DoitModel.C09
